@@ -61,6 +61,15 @@ def encode(t, pad=None):
     return enc_tag(cls, num, True, tp) + b"\x80" + content + b"\x00\x00"
 
 
+def tree_tokens(t):
+    if t[0] == 'P':
+        return ["P", str((t[2] << 2) | t[1]), hexs(t[3])]
+    out = ["C", str((t[2] << 2) | t[1]), "1" if t[3] else "0", str(len(t[4]))]
+    for c in t[4]:
+        out += tree_tokens(c)
+    return out
+
+
 def depth_of(t):
     d, stack = 0, [(t, 1)]
     while stack:
@@ -461,30 +470,32 @@ def main(tier):
     # 3. cases: (kind, bytes, tree or None)
     cases = []
     for t in boundary_trees():
-        cases.append(("wf-boundary", encode(t), t))
+        cases.append(("wf-boundary", encode(t), [t]))
     maxd = 12 if quick else 200
     ntrees = 500 if quick else 6000
     for i in range(ntrees):
         d = 1 + (i % maxd) if i < 4 * maxd else 1 + rng.below(min(maxd, 10))
         fan = 3 if d <= 16 else 2
         t = g_tree(rng, d, False, fan)
-        cases.append(("wf-random", encode(t), t))
+        cases.append(("wf-random", encode(t), [t]))
     for d in ([12] if quick else [12, 50, 100, 200]):
         for f in (lambda k: True, lambda k: False, lambda k: k % 2 == 0, lambda k: k % 3 != 0):
-            cases.append(("wf-chain", encode(chain(d, f, ('P', 2, 5, b"x"))), None))
+            t = chain(d, f, ('P', 2, 5, b"x"))
+            cases.append(("wf-chain", encode(t), [t]))
     # several top-level TLVs in one file
     for _ in range(40 if quick else 400):
         ts = [g_tree(rng, 1 + rng.below(4)) for _ in range(1 + rng.below(4))]
-        cases.append(("wf-multi", b"".join(encode(t) for t in ts), None))
+        cases.append(("wf-multi", b"".join(encode(t) for t in ts), ts))
     # large primitive inside nested definite/indefinite parents
     for n in (65535, 65536):
         body = rng.bytes(n)
-        cases.append(("wf-large", encode(('C', 0, 16, False, [('C', 2, 2**14, True, [('P', 1, 128, body)]), ('P', 0, 5, b"")])), None))
+        t = ('C', 0, 16, False, [('C', 2, 2**14, True, [('P', 1, 128, body)]), ('P', 0, 5, b"")])
+        cases.append(("wf-large", encode(t), [t]))
     nwf = len(cases)
     # non-minimal variants (known finding): same trees, padded tag / length octets
     for i in range(250 if quick else 3000):
         t = g_tree(rng, 1 + rng.below(6))
-        cases.append(("nonminimal", encode(t, padder(rng)), t))
+        cases.append(("nonminimal", encode(t, padder(rng)), None))
     cases.append(("nonminimal", bytes.fromhex("04810100"), None))
     cases.append(("nonminimal", bytes.fromhex("1f0500"), None))
     cases.append(("nonminimal", bytes.fromhex("1f800500"), None))
@@ -532,6 +543,17 @@ def main(tier):
             raise RuntimeError("model driver failed: rc=%s lines=%d/%d %s" % (rc_m, len(o), len(ch), e))
         mo += o
     mres = {i: (mo[2 * k], mo[2 * k + 1]) for k, i in enumerate(midx)}
+    # Spec side (coq/Tools/BerTree.v): ser and nodes of the generated trees, to be
+    # compared with the reference encoder and the walker below
+    sidx = [i for i, c in enumerate(cases) if c[2] is not None]
+    slines = []
+    for i in sidx:
+        tk = " ".join(" ".join(tree_tokens(t)) for t in cases[i][2])
+        slines += ["spec_ser " + tk, "spec_nodes " + tk]
+    rc_s, so, se = run_lines(model, slines, timeout=900)
+    if rc_s != 0 or len(so) != len(slines):
+        raise RuntimeError("model driver failed on spec queries: rc=%s %s" % (rc_s, se))
+    sres = {i: (so[2 * k], so[2 * k + 1]) for k, i in enumerate(sidx)}
 
     # 6. compare
     def replay(x):
@@ -589,12 +611,18 @@ def main(tier):
                                                        model_out=m_ebytes.hex()[:400], c_out=eout.hex()[:400], c_stderr=eerr[-300:], _pending=True))
         # -------- property oracle (independent of the model)
         nodes, wf, info = walk(x)
+        if i in sres:
+            run.count("spec:checked")
+            want_nodes = ",".join("%d:%d:%d:%d" % (o, (num << 2) | cls, hl, ln) for (o, cls, num, c, hl, ln) in nodes) or "-"
+            if sres[i][0] != hexs(x) or sres[i][1] != want_nodes or not wf:
+                run.violation("spec:BerTree", dict(rp, what="Coq spec (ser / nodes) disagrees with the reference encoder / BER walker of the check",
+                                                   spec_ser=sres[i][0][:400], spec_nodes=sres[i][1][:400], walker_nodes=want_nodes[:400]), no_input=True)
         if not wf:
             run.count("oracle:not-wf")
             continue
         run.count("oracle:wf" + ("-nonminimal" if info["nonminimal"] else "") + ("" if kind.startswith("wf") or kind == "nonminimal" else "-by-mutation"))
         run.count("depth:%s" % (info["depth"] if info["depth"] < 12 else ("12-49" if info["depth"] < 50 else "50+")))
-        if (kind.startswith("wf") and info["nonminimal"]) or (kind.startswith("wf") and t is not None and False):
+        if kind.startswith("wf") and info["nonminimal"]:
             run.violation("harness:generator", dict(rp, what="generator produced a non-minimal encoding in the minimal stream"), no_input=True)
         # documented limits of the tools (recorded findings): tag numbers >= 2^30, TL header > 32 octets
         if info["maxtag"] >= TAG_LIMIT:
